@@ -413,6 +413,61 @@ func c08AcrossVersion(dotu bool, maxpend, P int) Scenario {
 	return vsScenario(&VsSpec{Name: name, Body: body, Check: check, P: P})
 }
 
+// c08FlushSharedTag: a request X is issued under the tag of a Tflush that is still
+// waiting for its target (so X queues behind that Tflush); X then blocks in the
+// implementation. Another Tflush of the same target, with a tag of its own, must not
+// wait for X.
+func c08FlushSharedTag(dotu bool, maxpend, P int) Scenario {
+	var s *sess
+	var phase1 map[uint16]int
+	name := fmt.Sprintf("sharedtag request-behind-a-flush maxpend=%d dotu=%v", maxpend, dotu)
+	body := func() {
+		s = newSess(SrvOpt{Msize: 256, Dotu: dotu, Maxpend: maxpend})
+		r := s.prepare("read", 30, 100)
+		x := s.prepare("stat", 31, 102)
+		gR, gX := vs.NewSem(0), vs.NewSem(0)
+		s.fs.Script[reqKey{0, 100, 0}] = &Action{Gate: gR}
+		s.fs.Script[reqKey{0, 102, 0}] = &Action{Gate: gX}
+		s.setupN = len(s.c.Collect())
+		vs.Window(true)
+		s.c.Send(dotu, r)
+		vs.Idle()
+		s.c.Send(dotu, &wire.Msg{Type: wire.Tflush, Tag: 101, Oldtag: 100}, &wire.Msg{Type: wire.Tflush, Tag: 102, Oldtag: 100}, x)
+		vs.Idle()
+		gR.Release()
+		vs.Idle()
+		phase1 = map[uint16]int{}
+		for _, f := range s.c.Collect()[s.setupN:] {
+			if f.Msg != nil {
+				phase1[f.Msg.Tag]++
+			}
+		}
+		gX.Release()
+		vs.Idle()
+		vs.Window(false)
+		s.c.Collect()
+	}
+	check := stdCheck("C08", func(x *vs.Exec) *Viol {
+		frames := s.c.Frames[s.setupN:]
+		detail := map[string]any{"wire": strings.Split(framesString(frames), "\n"), "fslog": strings.Split(s.fs.logString(), "\n"), "parked": x.Parked}
+		if phase1[101] != 1 {
+			return &Viol{Sig: "C08/delayed-by-blocked-request/flush", Msg: fmt.Sprintf("the Tflush with tag 101 had no Rflush while only the request with tag 102 (queued behind another Tflush, then blocked in the implementation) was outstanding\n%s", framesString(frames)), Detail: detail}
+		}
+		n := map[uint16]int{}
+		for _, f := range frames {
+			if f.Msg == nil {
+				return &Viol{Sig: "C08/malformed-frame", Msg: f.Err, Detail: detail}
+			}
+			n[f.Msg.Tag]++
+		}
+		if n[101] != 1 || n[102] != 2 || n[100] > 1 {
+			return &Viol{Sig: "C08/reply-count/flush-shared-tag", Msg: fmt.Sprintf("replies per tag %v (want one Rflush for 101, an Rflush and an Rstat for 102, at most one for 100)\n%s\nparked %v", n, framesString(frames), x.Parked), Detail: detail}
+		}
+		return nil
+	}, nil)
+	return vsScenario(&VsSpec{Name: name, Body: body, Check: check, P: P})
+}
+
 func subsets(n int) [][]int {
 	var out [][]int
 	for m := 1; m < (1<<n)-1; m++ {
@@ -489,6 +544,7 @@ func c08Scenarios(tier string) []Scenario {
 		out = append(out, c08Group(c08GroupParams{Group: 3, FirstGate: true, Others: 2, Maxpend: 2, P: 1}))
 		out = append(out, c08Group(c08GroupParams{Group: 3, FirstGate: false, Others: 0, Maxpend: 0, Dotu: true, Split: true, P: 1}))
 		out = append(out, c08AcrossVersion(false, 0, 2), c08AcrossVersion(true, 2, 2))
+		out = append(out, c08FlushSharedTag(false, 0, 1), c08FlushSharedTag(true, 2, 1))
 		// an authentication exchange waiting inside AuthRead, more traffic on the same auth fid and elsewhere
 		out = append(out, c08Progress(c08Params{Kinds: []string{"authread", "authwrite", "stat"}, Parked: []int{0}, Release: []int{0}, Maxpend: 0, Dotu: true, P: 1}),
 			c08Progress(c08Params{Kinds: []string{"authread", "authwrite"}, Parked: []int{0}, Release: []int{0}, TwoConns: true, Maxpend: 2, P: 1}))
@@ -530,6 +586,7 @@ func c08Scenarios(tier string) []Scenario {
 		}
 	}
 	for _, mp := range []int{0, 1, 2} {
+		out = append(out, c08FlushSharedTag(mp == 1, mp, 2))
 		out = append(out, c08AcrossVersion(mp%2 == 0, mp, 3))
 		out = append(out, c08Progress(c08Params{Kinds: []string{"read", "stat", "write"}, Parked: []int{0}, Release: []int{0}, NotagFirst: true, Maxpend: mp, Dotu: mp == 1, P: 2}))
 		out = append(out, c08Progress(c08Params{Kinds: []string{"authread", "authwrite", "stat"}, Parked: []int{0}, Release: []int{0}, TwoConns: mp == 1, Maxpend: mp, Dotu: mp != 1, P: 2}))
@@ -542,7 +599,7 @@ func c08Scenarios(tier string) []Scenario {
 func init() {
 	register(&Property{ID: "C08", Level: "model_checking",
 		Technique: "stateless model checking of the real server under a controlled scheduler (all schedules within a preemption bound); blocking decided at quiescent states, no clocks",
-		Rule:      "every schedule with at most P preemptions per scenario: (a) every non-empty proper subset of n requests parked in the implementation, every release order, one or two connections, Maxpend 0..2 (also with the blocked request carrying tag 0xFFFF), plus implementations blocked inside FidDestroy or inside AuthRead (with more requests on the same auth fid), plus a first connection whose client stops reading - at the quiescent state reached while the subset is parked every other request must have its reply; (b) groups of 2..8 requests under one tag mixed with other tags - start/finish intervals in the implementation log disjoint and in arrival order, replies in that order; a shared tag used across a Tversion in mid-session (held request, Tversion, two more requests under the tag). distinct = distinct per-object operation orders",
+		Rule:      "every schedule with at most P preemptions per scenario: (a) every non-empty proper subset of n requests parked in the implementation, every release order, one or two connections, Maxpend 0..2 (also with the blocked request carrying tag 0xFFFF), plus implementations blocked inside FidDestroy or inside AuthRead (with more requests on the same auth fid), plus a first connection whose client stops reading - at the quiescent state reached while the subset is parked every other request must have its reply; (b) groups of 2..8 requests under one tag mixed with other tags - start/finish intervals in the implementation log disjoint and in arrival order, replies in that order; a request queued under the tag of a waiting Tflush and then blocked, next to a second Tflush; a shared tag used across a Tversion in mid-session (held request, Tversion, two more requests under the tag). distinct = distinct per-object operation orders",
 		Assumptions: []string{"code between two synchronisation operations is atomic (race-free executions)", "transport modelled as an unbounded reliable byte queue", "'delayed' means: not answered in a state where nothing but the blocked requests could still run"},
 		Scenarios:   c08Scenarios, QuickS: 180, ThoroughS: 1500})
 }
